@@ -250,16 +250,22 @@ def generate(rng, tier):
         programs.append({"src": src, "names": m})
     nseeds = 6 if tier == "quick" else 12
     seeds = [0, 1, 2, 3][: min(4, nseeds)] + [rng.randrange(4, 2 ** 32 - 1) for _ in range(nseeds - 4)]
-    return {"programs": programs, "hashseeds": seeds, "repo_corpus": rng.random() < 0.15}
+    return {"programs": programs, "hashseeds": seeds, "repo_corpus": rng.random() < 0.15,
+            "cold_index": rng.randrange(1, nseeds) if rng.random() < 0.6 else None}
 
 
 # ------------------------------------------------------------------ execution
 
 
-def _spawn(seed, payload):
+def _spawn(seed, payload, cold=False):
     from sim import kernel
     env = kernel.fresh_env(seed)
     env["PYTHONDONTWRITEBYTECODE"] = "1"  # many interpreters share the pycache prefix: read it, never race on writes
+    if cold:
+        # this interpreter finds no cached bytecode at all: hy's own Hy sources (core macros ...) are compiled from
+        # source first, the others load them from the cache -- the compiled output must not depend on that
+        import tempfile
+        env["PYTHONPYCACHEPREFIX"] = tempfile.mkdtemp(prefix="c13-cold-", dir=os.environ.get("VERIF_SCRATCH") or None)
     p = subprocess.Popen([kernel.PYTHON, os.path.join(kernel.VERIF_DIR, "sim", "engines", "procs_worker.py")],
                          stdin=subprocess.PIPE, stdout=subprocess.PIPE, stderr=subprocess.PIPE, env=env, text=True,
                          cwd=os.environ.get("VERIF_SCRATCH") or "/tmp")
@@ -283,7 +289,9 @@ def execute(desc, dump=None):
         programs = _corpus() + programs
     payload = json.dumps({"sources": [{"src": p["src"], "name": p.get("name", "c13_mod_%d" % i), "file": p.get("file")}
                                       for i, p in enumerate(programs)], "dump": dump or []})
-    procs = [(s, _spawn(s, payload)) for s in desc["hashseeds"]]
+    cold = desc.get("cold_index")
+    procs = [(s, _spawn(s, payload, cold=(cold is not None and k == cold % len(desc["hashseeds"]) and k > 0)))
+             for k, s in enumerate(desc["hashseeds"])]
     results = {}
     for s, p in procs:
         try:
@@ -298,7 +306,8 @@ def execute(desc, dump=None):
     base = results[seeds[0]]
     viols = []
     events = []
-    faults = {"fresh_interpreters": len(seeds), "distinct_hash_seeds": len(set(seeds))}
+    faults = {"fresh_interpreters": len(seeds), "distinct_hash_seeds": len(set(seeds)),
+              "interpreter_with_cold_bytecode_cache": int(cold is not None)}
     probes = {"programs": len(programs), "compilations": len(programs) * len(seeds), "programs_with_compile_error": 0,
               "raw_marshal_mismatches_info": 0, "programs_with_nameset_ge_3": 0}
     sigs = []
